@@ -149,6 +149,8 @@ where
     iter: LineColIterator<io::Bytes<R>>,
     /// Temporary storage of peeked byte.
     ch: Option<u8>,
+    /// Position of the peeked byte (the iterator has already moved past it).
+    ch_pos: Position,
 }
 
 /// S-expression input source that reads from a slice of bytes.
@@ -184,6 +186,7 @@ where
         IoRead {
             iter: LineColIterator::new(reader.bytes()),
             ch: None,
+            ch_pos: Position { line: 1, column: 0 },
         }
     }
 }
@@ -266,14 +269,21 @@ where
     fn peek(&mut self) -> Result<Option<u8>> {
         match self.ch {
             Some(ch) => Ok(Some(ch)),
-            None => match self.iter.next() {
-                Some(Err(err)) => Err(Error::io(err)),
-                Some(Ok(ch)) => {
-                    self.ch = Some(ch);
-                    Ok(self.ch)
+            None => {
+                let pos = Position {
+                    line: self.iter.line(),
+                    column: self.iter.col(),
+                };
+                match self.iter.next() {
+                    Some(Err(err)) => Err(Error::io(err)),
+                    Some(Ok(ch)) => {
+                        self.ch = Some(ch);
+                        self.ch_pos = pos;
+                        Ok(self.ch)
+                    }
+                    None => Ok(None),
                 }
-                None => Ok(None),
-            },
+            }
         }
     }
 
@@ -283,16 +293,24 @@ where
     }
 
     fn position(&self) -> Position {
-        Position {
-            line: self.iter.line(),
-            column: self.iter.col(),
+        // A peeked byte has not been consumed yet: the position is the one in front of it, as
+        // for the slice-based sources.
+        match self.ch {
+            Some(_) => self.ch_pos,
+            None => Position {
+                line: self.iter.line(),
+                column: self.iter.col(),
+            },
         }
     }
 
     fn peek_position(&self) -> Position {
         // The LineColIterator updates its position during peek() so it has the
         // right one here.
-        self.position()
+        Position {
+            line: self.iter.line(),
+            column: self.iter.col(),
+        }
     }
 
     fn byte_offset(&self) -> usize {
